@@ -36,15 +36,105 @@ theorem lhsSum_smul (r : Ix) (a : K) (x : Ix → K) (l : List (Ix × Ix × K)) :
   | nil => simp [lhsSum]
   | cons h t ih => obtain ⟨r', c, v⟩ := h; simp [lhsSum, ih]; split_ifs <;> ring
 
+theorem icFlux_scale (a M : K) (o : Option K) : icFlux M (o.map (fun v => a * v)) = a * icFlux M o := by
+  cases o <;> simp [icFlux]; ring
+
+theorem rhsSum_icRhs_scale (r : Ix) (a : K) (m : Nat) (coup : List (Nat × K × Option K)) :
+    rhsSum r ((coupMap (fun v => a * v) coup).map (fun p => (br m, -(icFlux p.2.1 p.2.2)))) =
+      a * rhsSum r (coup.map (fun p => (br m, -(icFlux p.2.1 p.2.2)))) := by
+  induction coup with
+  | nil => simp [coupMap, rhsSum]
+  | cons h t ih =>
+    simp only [coupMap, List.map_cons, rhsSum] at ih ⊢
+    rw [ih, icFlux_scale]
+    split_ifs <;> ring
+
+theorem coupMap_lhs (f : K → K) (s : K) (m : Nat) (coup : List (Nat × K × Option K)) :
+    (coupMap f coup).map (fun p => (br m, br p.1, -(s * p.2.1))) =
+      coup.map (fun p => (br m, br p.1, -(s * p.2.1))) := by
+  simp [coupMap, List.map_map, Function.comp]
+
+theorem icFlux_optAdd (M : K) (o o' : Option K) (h : o'.map (fun _ => (0 : K)) = o.map (fun _ => (0 : K))) :
+    icFlux M (optAdd o o') = icFlux M o + icFlux M o' := by
+  cases o <;> cases o' <;> simp [icFlux, optAdd] at h ⊢
+  ring
+
+theorem rhsSum_icRhs_add (r : Ix) (m : Nat) (c c' : List (Nat × K × Option K))
+    (h : coupMap (fun _ => (0 : K)) c' = coupMap (fun _ => (0 : K)) c) :
+    rhsSum r ((coupAdd c c').map (fun p => (br m, -(icFlux p.2.1 p.2.2)))) =
+      rhsSum r (c.map (fun p => (br m, -(icFlux p.2.1 p.2.2)))) +
+      rhsSum r (c'.map (fun p => (br m, -(icFlux p.2.1 p.2.2)))) := by
+  induction c generalizing c' with
+  | nil =>
+    cases c' with
+    | nil => simp [coupAdd, rhsSum]
+    | cons _ _ => simp [coupMap] at h
+  | cons p t ih =>
+    cases c' with
+    | nil => simp [coupMap] at h
+    | cons q t' =>
+      simp only [coupMap, List.map_cons, List.cons.injEq, Prod.mk.injEq] at h
+      obtain ⟨⟨h1, h2, h3⟩, h4⟩ := h
+      have := ih t' (by simpa [coupMap] using h4)
+      simp only [coupAdd, List.zipWith_cons_cons, List.map_cons, rhsSum] at this ⊢
+      rw [this, icFlux_optAdd _ _ _ h3, h2]
+      split_ifs <;> ring
+
+theorem coupAdd_lhs (s : K) (m : Nat) (c c' : List (Nat × K × Option K))
+    (h : coupMap (fun _ => (0 : K)) c' = coupMap (fun _ => (0 : K)) c) :
+    (coupAdd c c').map (fun p => (br m, br p.1, -(s * p.2.1))) =
+      c.map (fun p => (br m, br p.1, -(s * p.2.1))) := by
+  induction c generalizing c' with
+  | nil => simp [coupAdd]
+  | cons p t ih =>
+    cases c' with
+    | nil => simp [coupMap] at h
+    | cons q t' =>
+      simp only [coupMap, List.map_cons, List.cons.injEq, Prod.mk.injEq] at h
+      obtain ⟨_, h4⟩ := h
+      have := ih t' (by simpa [coupMap] using h4)
+      simp only [coupAdd, List.zipWith_cons_cons, List.map_cons] at this ⊢
+      rw [this]
+
+theorem coupAdd_kill_scaled (a : K) (coup : List (Nat × K × Option K)) :
+    coupAdd coup (coupMap (fun v => a * v) (coupMap (fun _ => 0) coup)) = coup := by
+  induction coup with
+  | nil => rfl
+  | cons p t ih =>
+    obtain ⟨b, M, o⟩ := p
+    simp only [coupMap, List.map_cons, coupAdd, List.zipWith_cons_cons] at ih ⊢
+    rw [ih]
+    cases o <;> simp [optAdd]
+
+theorem coupMap_zero_idem (a : K) (coup : List (Nat × K × Option K)) :
+    coupMap (fun _ => (0 : K)) (coupMap (fun v => a * v) (coupMap (fun _ => 0) coup)) = coupMap (fun _ => 0) coup := by
+  induction coup with
+  | nil => rfl
+  | cons p t ih =>
+    obtain ⟨b, M, o⟩ := p
+    simp only [coupMap, List.map_cons] at ih ⊢
+    rw [ih]; cases o <;> simp
+
+theorem coupMap_zero_zero (coup : List (Nat × K × Option K)) :
+    coupMap (fun _ => (0 : K)) (coupMap (fun _ => 0) coup) = coupMap (fun _ => 0) coup := by
+  induction coup with
+  | nil => rfl
+  | cons p t ih =>
+    obtain ⟨b, M, o⟩ := p
+    simp only [coupMap, List.map_cons] at ih ⊢
+    rw [ih]; cases o <;> simp
+
 theorem stamp_lhs_mapSrc (kind : Kind) (s : K) (f : K → K) (c : Cpt K) :
     (stamp kind s (c.mapSrc f)).lhs = (stamp kind s c).lhs := by
-  cases c <;> simp [Cpt.mapSrc, stamp]
+  cases c <;> simp [Cpt.mapSrc, stamp, coupMap_lhs]
 
 theorem stamp_rhs_scale (kind : Kind) (s a : K) (c : Cpt K) (r : Ix) :
     rhsSum r (stamp kind s (c.mapSrc (fun v => a * v))).rhs = a * rhsSum r (stamp kind s c).rhs := by
   cases c with
   | Cap n1 n2 c v0 => cases kind <;> cases v0 <;> simp [Cpt.mapSrc, stamp, rhsSum] <;> split_ifs <;> ring
-  | Ind n1 n2 m l i0 coup => cases kind <;> cases i0 <;> simp [Cpt.mapSrc, stamp, rhsSum] <;> split_ifs <;> ring
+  | Ind n1 n2 m l i0 coup =>
+    cases kind <;> cases i0 <;>
+      simp [Cpt.mapSrc, stamp, rhsSum, rhsSum_append, rhsSum_icRhs_scale] <;> (try split_ifs) <;> ring
   | _ => simp [Cpt.mapSrc, stamp, rhsSum] <;> split_ifs <;> ring
 
 /-- scaling every independent quantity of one component scales its residual -/
@@ -86,9 +176,17 @@ theorem residual_add_cpt (kind : Kind) (s : K) (c c' : Cpt K) (h : SameShape c c
       simp [residual, ground_add, lhsSum_add, Cpt.addSrc, optAdd, stamp, rhsSum] <;> split_ifs <;> ring
   case Ind.Ind n1 n2 m l i0 coup n1' n2' m' l' i0' coup' =>
     simp [Cpt.mapSrc] at h
-    obtain ⟨rfl, rfl, rfl, rfl, h4, rfl⟩ := h
+    obtain ⟨rfl, rfl, rfl, rfl, h4, h5⟩ := h
+    have hl := fun m => coupAdd_lhs s m coup coup' h5
+    have hl' : ∀ m, List.map (fun p => (br m, br p.1, -(s * p.2.1))) coup' =
+        List.map (fun p => (br m, br p.1, -(s * p.2.1))) coup := by
+      intro m
+      have := coupMap_lhs (fun _ => (0 : K)) s m coup'
+      rw [h5, coupMap_lhs] at this
+      exact this.symm
     cases kind <;> cases i0 <;> cases i0' <;> simp at h4 <;>
-      simp [residual, ground_add, lhsSum_add, Cpt.addSrc, optAdd, stamp, rhsSum] <;> split_ifs <;> ring
+      simp [residual, ground_add, lhsSum_add, Cpt.addSrc, optAdd, stamp, rhsSum, rhsSum_append,
+            rhsSum_icRhs_add _ _ _ _ h5, hl, hl'] <;> (try split_ifs) <;> ring
   all_goals
     simp [Cpt.mapSrc] at h
     (try obtain ⟨rfl, rfl⟩ := h)
